@@ -1,6 +1,7 @@
 import Mimium.Proofs.FfiConv
 import Mimium.Proofs.FfiType
 import Mimium.Proofs.FfiValueSerde
+import Mimium.Proofs.FfiTrunc
 /-!
 # C20 — Values and types survive the plugin FFI encoding
 
@@ -49,6 +50,29 @@ theorem C20_ffi_deserialize_serialize (v : FfiValue) (rest : Bytes) (hr : v.Rep)
 
 /-- the variant index written for a constructor selects that constructor again (generated table, re-checked each run) -/
 theorem C20_ffi_tags_roundtrip (c : FfiCtor) : FfiCtor.ofTag c.tag = some c := FfiCtor.ofTag_tag c
+
+/-- distinct values never share an encoding -/
+theorem C20_encode_injective (v w : FfiValue) (hv : v.Rep) (hw : w.Rep) (kv : v.KeysValid) (kw : w.KeysValid)
+    (h : encode v = encode w) : v = w := by
+  have a := C20_ffi_roundtrip v hv kv
+  have b := C20_ffi_roundtrip w hw kw
+  rw [h, b] at a
+  simp at a
+  exact a.symm
+
+/-! ### malformed streams -/
+
+/-- truncation: every strict prefix of a valid encoding is rejected (`Err`), at any depth -/
+theorem C20_truncation_rejected (v : FfiValue) (hr : v.Rep) (k : Nat) (hk : k < (encode v).length) :
+    decodeBytes ((encode v).take k) = none := decodeBytes_truncated v hr k hk
+
+/-- whatever the decoder accepts (valid or not), it accepts identically when more bytes follow -/
+theorem C20_decode_extension_stable (f : Nat) (bs x : Bytes) (v : FfiValue) (r : Bytes)
+    (h : decode f bs = some (v, r)) : decode f (bs ++ x) = some (v, r ++ x) := (decode_ext_all f).1 bs v r x h
+
+/-- the model's fuel is not observable: more fuel never changes an accepted result -/
+theorem C20_decode_fuel_monotone (f g : Nat) (hfg : f ≤ g) (bs : Bytes) (p : FfiValue × Bytes)
+    (h : decode f bs = some p) : decode g bs = some p := decode_fuel_le hfg h
 
 /-! ## macro arguments `Vec<(FfiValue, TypeNodeId)>` -/
 
